@@ -92,6 +92,22 @@ CLAIMED['C13'] = {
           'on 600 / 8000 generated cases each per run.',
   'design': '7.3 (C13)',
 }
+CLAIMED['C18'] = {
+  'text': 'Containment and manifest mode, proved (z3) for the primitives every backend writes through: _relative_output_path refuses exactly the '
+          'paths outside the output root; Backend._validate_output_path / _record_output_path; Backend.copy_to_path and the context manager '
+          'Backend.output_to_relative_path perform no file-system effect before the validation has passed, every effect (makedirs, open, write, '
+          'copy) is on the validated path (or the directory of it), and in manifest mode there is no effect at all while the path is recorded. '
+          'File-system calls are a ghost trace in the proofs (recorded, not performed); the with-body between enter and exit of the context '
+          'manager is arbitrary (all attributes but the target folder and manifest are havocked at the yield). Verbatim emission (emit_raw, '
+          'emit, emit_wrapped_text: the rendered buffer grows by exactly the text, indentation-prefixed, words kept in order) and '
+          'OutputManifest.add_output are NOT proved (string contents and set mutation are opaque to the VC generator): step postconditions '
+          'checked on generated texts -- BOUNDED stand-ins.',
+  'note': 'Proved: 5 functions. Library assumption: axiom PATH (os.path.relpath of the absolute paths decides containment), validated natively '
+          'on generated paths against an independent component-wise definition on every run; os.path.* are uninterpreted; symlinks are outside '
+          'the model. Not covered: the Swift writer and whole-backend manifest fidelity (that every backend writes only through these '
+          'primitives is not checked); block / generate_multiline_list / placeholders have no contract.',
+  'design': '7.3 (C18)',
+}
 NOT_YET = {
  'C01': 'not decided by this technique in this revision: acceptance <=> language rules is a property of the whole frontend (ply lexer / LALR tables, '
         'the parser actions and the ten resolution passes of ir_generator.py, ~2000 lines over mutable AST/IR graphs), which is outside the Python '
@@ -110,8 +126,6 @@ NOT_YET = {
  'C12': 'not applicable to this technique: determinism across processes, hash seeds and output directories is a relation between runs; a function '
         'contract can state order-insensitivity of one function over a set, which was planned for the anchor list but needs a model of set iteration '
         'order that the engine does not have',
- 'C18': 'not decided: containment needs a ghost file-system model with generator functions (yield / with) and os.path as axiomatised library, verbatim '
-        'emission is a property of string contents; strings are opaque (interned) in this engine and the effect trace was not built',
  'C20': 'not decided: the closure is computed by a recursive traversal over mutable sets / defaultdicts with doc-reference regexes '
         '(_find_dependencies_recursive), outside the VC generator subset; no bounded stand-in was built either',
 }
